@@ -442,6 +442,96 @@ def r5(ck, F):
             ck.bad("C08.R5", "EnvFilter::register_callsite: `always` only after statics.enabled or a stored span matcher", where(rc.raw["sp"]), "always-paths %s" % always[:2], fn=rc.path)
 
 
+def for_each_fold_table(F, bc):
+    """The fold of Vec<S>::register_callsite written as `self.iter().for_each(|s| { .. })` with the accumulators captured by
+    `&mut`: extract the per-child transition from the closure (child verdict -> which accumulator is written with what) and the
+    post-loop selection from the function, then tabulate 0..2 children by simulating it. None if the shape is not this one."""
+    fe = [(bb, t) for bb, t in bc.calls() if t["callee"].get("method") == "for_each"]
+    if len(fe) != 1:
+        return None
+    o = bc.origin(fe[0][1]["argv"][1])
+    cd = o[1].get("agg", {}).get("closure") if o[0] == "agg" else None
+    cb = F.body(cd) if cd else None
+    if cb is None or not any(t["callee"].get("method") == "register_callsite" for bb, t in cb.calls()):
+        return None
+    caps = o[1]["agg"].get("fields", [])
+    # transition: verdict class -> list of (captured name, value kind)
+    trans = {}
+    for p in PathEval(cb).run():
+        if p.end != "return":
+            continue
+        cls = "always"
+        for c in p.conds:
+            t = show(c[0])
+            if t.startswith("is_never(register_callsite(") and c[1] != 0:
+                cls = "never"
+            elif t.startswith("is_sometimes(register_callsite(") and c[1] != 0:
+                cls = "sometimes"
+            elif t.startswith("is_always(register_callsite(") and c[1] == 0 and cls == "always":
+                return None
+        writes = []
+        for bb in p.blocks:
+            for st in cb.blocks[bb]["stmts"]:
+                if st["k"] == "assign" and st["lhs"].get("p") == ["*"]:
+                    src = cb.origin({"copy": {"l": st["lhs"]["l"]}})
+                    name = None
+                    if src[0] == "arg" and src[1] == 1:
+                        names = [x.get("n") for x in src[2] if isinstance(x, dict) and x.get("n")]
+                        name = names[-1] if names else None
+                    rv = st["rv"]
+                    if "use" in rv and "const" in rv["use"]:
+                        val = ("const", rv["use"]["const"].get("int"))
+                    else:
+                        vo = cb.origin(rv.get("use", {})) if "use" in rv else ("?",)
+                        val = ("child",) if vo[0] == "call" and vo[2]["callee"].get("method") == "register_callsite" else ("?",)
+                    writes.append((name, val))
+        if cls in trans and trans[cls] != writes:
+            return None
+        trans[cls] = writes
+    if set(trans) != {"never", "sometimes", "always"}:
+        return None
+    # post-loop selection in the function: `if FLAG { never() } else { ACC }` with ACC initialised to always()
+    rets = []
+    for p in PathEval(bc).run():
+        if p.end == "return":
+            rets.append(([(show(c[0]), c[1] != 0) for c in p.conds], show(p.ret)))
+    flag = acc = None
+    for conds, r in rets:
+        esc = [c for c in conds if "escaped _" in c[0]]
+        if len(esc) == 1 and esc[0][1] and r == "never()":
+            flag = esc[0][0]
+        if len(esc) == 1 and not esc[0][1] and "escaped _" in r:
+            acc = r
+    inits = [show(PathEvalInit(bc, st)) for i, j, st in bc.stmts() if False]
+    if flag is None or acc is None:
+        return None
+    # which captured name is the flag / the accumulator: the one written with a constant true / with the child's interest
+    flag_name = next((n for cls, ws in trans.items() for n, v in ws if v == ("const", 1)), None)
+    acc_name = next((n for cls, ws in trans.items() for n, v in ws if v == ("child",)), None)
+    if flag_name is None or acc_name is None or any(v == ("?",) for ws in trans.values() for n, v in ws):
+        return None
+    init_always = any(t["callee"].get("path", "").endswith("Interest::always") for bb, t in bc.calls())
+    if not init_always:
+        return None
+    table = {}
+    import itertools
+    for k in (0, 1, 2):
+        for kids in itertools.product(("never", "sometimes", "always"), repeat=k):
+            f, a = False, "always"
+            for kid in kids:
+                for n, v in trans[kid]:
+                    if n == flag_name and v == ("const", 1):
+                        f = True
+                    elif n == acc_name and v == ("child",):
+                        a = kid
+            table[tuple(kids)] = "never" if f else a
+    return table
+
+
+def PathEvalInit(body, st):
+    return ("unknown", "")
+
+
 def r6(ck, F):
     V = "alloc::vec::Vec<S>"
     be = F.impl_method(SUBSCRIBE, V, "enabled")
@@ -461,7 +551,10 @@ def r6(ck, F):
     key = "Vec<S>::register_callsite is sound w.r.t. Vec<S>::enabled"
     table = {}
     problems = []
-    for p in PathEval(bc, max_paths=20000, max_visits=4).run():
+    fe_table = for_each_fold_table(F, bc)
+    if fe_table is not None:
+        table = fe_table
+    for p in ([] if fe_table is not None else PathEval(bc, max_paths=20000, max_visits=4).run()):
         if p.end != "return":
             continue
         kids = []
